@@ -2,6 +2,7 @@
 From Coq Require Import List NArith Bool Lia.
 From V.C11 Require Import Model.
 From V.C11 Require Before.
+From V.C11 Require HSModel HSProofs.
 From V.C11 Require Export PBase PAlt PHInv PInv PIso PLedger PTimer PSend PLazy PGate PLazyAlt.
 Import ListNotations.
 Open Scope N_scope.
